@@ -24,7 +24,7 @@ const limit = 1 << 20 // what the PROPERTY says (1 MiB), not what the code says
 func init() {
 	h.Register(&h.Prop{
 		ID:     "C15",
-		Rule:   "cases: inter (two connections read concurrently under a scripted interleaving of their Read calls), rd (explicit short stream × every 2-split / 1-byte / random chunking, EOF at every offset), rdseq (≤50 frames), syn (lengths 1..5, 2^k-1,2^k,2^k+1 ≤ 2^20+1, headers 0 and > limit), wr; non-trivial = stream is delivered in ≥2 chunks or is malformed (truncated / zero / oversize header); distinct = distinct case line",
+		Rule:   "cases: rde (the rd cases over a transport whose last Read returns bytes together with io.EOF), inter (two connections read concurrently under a scripted interleaving of their Read calls), rd (explicit short stream × every 2-split / 1-byte / random chunking, EOF at every offset), rdseq (≤50 frames), syn (lengths 1..5, 2^k-1,2^k,2^k+1 ≤ 2^20+1, headers 0 and > limit), wr; non-trivial = stream is delivered in ≥2 chunks or is malformed (truncated / zero / oversize header); distinct = distinct case line",
 		Gen:    gen,
 		Exec:   exec,
 		Shrink: shrinkLine,
@@ -39,6 +39,7 @@ type sconn struct {
 	wsizes  []int
 	wi      int
 	wcalls  int
+	eofData bool // the Read that empties the transport returns its bytes TOGETHER with io.EOF (io.Reader allows it)
 }
 
 func (c *sconn) Read(b []byte) (int, error) {
@@ -53,6 +54,15 @@ func (c *sconn) Read(b []byte) (int, error) {
 	}
 	n := copy(b, c.chunks[0])
 	c.chunks[0] = c.chunks[0][n:]
+	if c.eofData {
+		left := 0
+		for _, ch := range c.chunks {
+			left += len(ch)
+		}
+		if left == 0 {
+			return n, io.EOF
+		}
+	}
 	return n, nil
 }
 func (c *sconn) Write(b []byte) (int, error) {
@@ -286,6 +296,38 @@ func exec(line string) (res h.Result) {
 			res.Class = "rd-ok"
 			res.Nontrivial = nch >= 2
 		}
+	case "rde":
+		// the transport hands out its last bytes together with io.EOF (n > 0, err != nil in one Read)
+		stream, sizes := h.UnHex(w[1]), csv(w[2])
+		c := &sconn{chunks: chunk(stream, sizes), eofData: true}
+		lastStart := 0 // offset at which the transport's last Read-able chunk starts
+		for i, ch := range c.chunks {
+			if i < len(c.chunks)-1 {
+				lastStart += len(ch)
+			}
+		}
+		got, err := p2p.VerifReadFrom(c)
+		o := oracleRead(stream, got, err, c.rest(), c.maxReq)
+		if strings.HasPrefix(o, "valid-rejected") {
+			// the code drops the bytes of a failing Read: a complete frame whose last byte arrives in the
+			// transport's last Read is rejected (model: readFrameE; Props.C15.eofdata_last_frame_rejected).
+			// Only a frame that ends before that last chunk begins must be accepted.
+			size := int(binary.BigEndian.Uint32(stream[:4]))
+			if lastStart < 4+size {
+				o = ""
+			}
+		}
+		if o != "" {
+			res.Oracle = "eofdata-" + o
+		}
+		if err != nil {
+			res.Impl = fmt.Sprintf("err %s req=%d", errKind(err), c.maxReq)
+			res.Class = "rde-err-" + errKind(err)
+		} else {
+			res.Impl = fmt.Sprintf("ok %s rest=%s req=%d", h.Hex(got), h.Hex(c.rest()), c.maxReq)
+			res.Class = "rde-ok"
+		}
+		res.Nontrivial = true
 	case "rdseq":
 		k, stream, sizes := h.Atoi(w[1]), h.UnHex(w[2]), csv(w[3])
 		c := &sconn{chunks: chunk(stream, sizes)}
@@ -400,17 +442,24 @@ func gen(tier string, rng *h.Rng, emit func(string)) {
 		p := rng.Bytes(n)
 		extra := rng.Bytes(rng.Intn(6))
 		s := append(frame(p), extra...)
-		emit(fmt.Sprintf("rd %s -", h.Hex(s)))
-		emit(fmt.Sprintf("rd %s 1", h.Hex(s)))
+		// every line also as `rde`: same stream and chunking over a transport that returns its last
+		// bytes together with io.EOF
+		both := func(args string) { emit("rd " + args); emit("rde " + args) }
+		both(fmt.Sprintf("%s -", h.Hex(s)))
+		both(fmt.Sprintf("%s 1", h.Hex(s)))
 		for k := 1; k < len(s); k++ {
-			emit(fmt.Sprintf("rd %s %d,%d", h.Hex(s), k, len(s)))
+			both(fmt.Sprintf("%s %d,%d", h.Hex(s), k, len(s)))
 		}
 		for cut := 0; cut < 4+n; cut++ { // truncated
-			emit(fmt.Sprintf("rd %s %d", h.Hex(s[:cut]), 1+rng.Intn(5)))
+			both(fmt.Sprintf("%s %d", h.Hex(s[:cut]), 1+rng.Intn(5)))
+			if cut > 4 {
+				emit(fmt.Sprintf("rde %s %d,%d", h.Hex(s[:cut]), 4, len(s))) // header, then the short tail WITH the EOF
+				emit(fmt.Sprintf("rde %s -", h.Hex(s[:cut])))                  // everything in one Read with the EOF
+			}
 		}
 		for j := 0; j < 4; j++ {
 			sz := []int{1 + rng.Intn(4), 1 + rng.Intn(9), 1 + rng.Intn(3)}
-			emit(fmt.Sprintf("rd %s %s", h.Hex(s), csvOf(sz)))
+			both(fmt.Sprintf("%s %s", h.Hex(s), csvOf(sz)))
 		}
 	}
 	// 2. zero / oversize / boundary headers
@@ -524,29 +573,30 @@ func gen(tier string, rng *h.Rng, emit func(string)) {
 // shrinkLine proposes simpler variants of an `rd` case: shorter stream, simpler chunking.
 func shrinkLine(line string) []string {
 	w := strings.Fields(line)
-	if w[0] != "rd" {
+	if w[0] != "rd" && w[0] != "rde" {
 		return nil
 	}
+	op := w[0]
 	s, sz := h.UnHex(w[1]), csv(w[2])
 	var out []string
 	if len(sz) > 1 {
-		out = append(out, fmt.Sprintf("rd %s %s", w[1], csvOf(sz[:len(sz)-1])), fmt.Sprintf("rd %s %s", w[1], csvOf(sz[1:])))
+		out = append(out, fmt.Sprintf(op+" %s %s", w[1], csvOf(sz[:len(sz)-1])), fmt.Sprintf(op+" %s %s", w[1], csvOf(sz[1:])))
 	}
 	if len(s) > 0 {
-		out = append(out, fmt.Sprintf("rd %s %s", h.Hex(s[:len(s)-1]), w[2]))
+		out = append(out, fmt.Sprintf(op+" %s %s", h.Hex(s[:len(s)-1]), w[2]))
 	}
 	if len(s) > 5 { // drop one payload byte and decrement the announced length
 		t := append([]byte{}, s[:4]...)
 		if n := binary.BigEndian.Uint32(t); n > 1 {
 			binary.BigEndian.PutUint32(t, n-1)
-			out = append(out, fmt.Sprintf("rd %s %s", h.Hex(append(t, s[5:]...)), w[2]))
+			out = append(out, fmt.Sprintf(op+" %s %s", h.Hex(append(t, s[5:]...)), w[2]))
 		}
 	}
 	for i, k := range sz {
 		if k > 1 {
 			c := append([]int{}, sz...)
 			c[i] = k - 1
-			out = append(out, fmt.Sprintf("rd %s %s", w[1], csvOf(c)))
+			out = append(out, fmt.Sprintf(op+" %s %s", w[1], csvOf(c)))
 		}
 	}
 	return out
